@@ -59,7 +59,7 @@ def is_int(v):
 
 
 def is_bool(v):
-    return isinstance(v, tuple) and v and v[0] in ("bconst", "cmp", "not", "and", "or")
+    return isinstance(v, tuple) and v and v[0] in ("bconst", "cmp", "not", "and", "or", "bvar")
 
 
 def b_not(e):
@@ -86,6 +86,8 @@ def ev_bool(e, sigma):
         return ev_bool(e[1], sigma) and ev_bool(e[2], sigma)
     if k == "or":
         return ev_bool(e[1], sigma) or ev_bool(e[2], sigma)
+    if k == "bvar":
+        return bool(sigma[e[1]])
     if k == "cmp":
         a, c = ev_int(e[2], sigma), ev_int(e[3], sigma)
         return {"Lt": a < c, "Le": a <= c, "Gt": a > c, "Ge": a >= c, "Eq": a == c, "Ne": a != c}[e[1]]
@@ -119,9 +121,10 @@ class Path:
 class Summary:
     """guarded transitions of one handler body"""
 
-    def __init__(self, P, E, hb, item_param=3):
+    def __init__(self, P, E, hb, item_param=3, item_kind="item"):
         self.P, self.E, self.b = P, E, hb
         self.item_param = item_param
+        self.item_kind = item_kind
         self.cellinfo = {}       # gcell -> ("int", init) | ("cont", kind) | ("obj", what)
         self.bounds = {}         # gcell -> symbol
         self.paths = []
@@ -163,14 +166,26 @@ class Summary:
                 if name == "new" and (p.startswith("std::sync::") or p.startswith("std::cell::")) and c.args:
                     a = c.args[0]
                     if a["k"] == "const":
-                        if "int" in a:
-                            res = ("int", a["int"])
-                        elif a.get("s") in ("true", "false"):
+                        if a.get("s") in ("true", "false"):
                             res = ("flag", a["s"] == "true")
+                        elif "int" in a:
+                            res = ("int", a["int"])
                         else:
                             res = ("obj", a.get("s", "?"))
                         break
                     nxt = [t for t in cur_body.operand_prov(a)]
+                    if len(nxt) == 1 and nxt[0][0] == "const" and isinstance(nxt[0][1], str):
+                        # a constant that reached the constructor through a local (an inlined helper's parameter)
+                        import re
+                        cs = nxt[0][1]
+                        m = re.match(r"^(-?\d+)(_[iu](8|16|32|64|128|size))?$", cs)
+                        if cs in ("true", "false"):
+                            res = ("flag", cs == "true")
+                        elif m:
+                            res = ("int", int(m.group(1)))
+                        else:
+                            res = ("obj", cs)
+                        break
                     if len(nxt) == 1 and nxt[0][0] == "ret" and not nxt[0][2]:
                         cur_bb = nxt[0][1]
                         continue
@@ -184,7 +199,11 @@ class Summary:
                                 res = ("int", ("sym", self._sym(g0)))
                                 break
                     if len(nxt) == 1 and nxt[0][0] == "agg":
-                        res = ("obj", "aggregate")
+                        st = cur_body.blocks[nxt[0][1][0]]["stmts"][nxt[0][1][1]]["rv"]
+                        if st.get("ak") == "adt" and norm(st.get("def") or "") == "std::option::Option":
+                            res = ("optcell", st.get("variant") == "Some")
+                        else:
+                            res = ("obj", "aggregate")
                         break
                     res = ("obj", "computed")
                     break
@@ -236,31 +255,44 @@ class Summary:
                     v = TOP
                     break
             return v
-        if not want_int:
-            ty = self._place_ty(place)
-            if ty is not None and not self._is_intlike(ty) and ty.get("s") != "bool":
-                return TOP
         gs = self._gcells(b.place_prov(place))
         if not gs or len(gs) != 1:
             return TOP
         g = next(iter(gs))
         kind = self._alloc_kind(g)
+        ty = self._place_ty(place)
+        if kind and kind[0] == "flag":
+            if ty is None or ty.get("s") == "bool":
+                return p.cells.get(g, ("bvar", "f:" + self._sym(g)))
+            return TOP
+        if kind and kind[0] == "optcell":
+            if ty is None or norm(ty_adt(ty) or "") == "std::option::Option":
+                return ("opt", p.cells.get(g, ("bvar", "o:" + self._sym(g))), ("stored",))
+            return TOP
+        if not want_int and ty is not None and not self._is_intlike(ty):
+            return TOP
         if kind and kind[0] == "int":
             return p.cells.get(g, INT(self._sym(g)))
+        if kind and kind[0] == "ext" and g[0] == b.id and g[1] == "param":
+            return (self.item_kind,) if g[2] == self.item_param else TOP      # the handler's own arguments
         if kind and kind[0] == "ext":
             # a captured plain value (the operator's parameter): immutable symbol
+            if ty is not None and not self._is_intlike(ty) and not want_int:
+                return ("captured",)
+            if ty is None and not want_int:
+                return ("captured",)
             self.bounds[g] = self._sym(g)
             return INT(self._sym(g))
         return TOP
 
     def operand(self, p, o, want_int=False):
         if o["k"] == "const":
-            if "int" in o:
-                return INT(None, o["int"])
             if o.get("s") == "true":
                 return TRUE
             if o.get("s") == "false":
                 return FALSE
+            if "int" in o:
+                return INT(None, o["int"])
             return TOP
         return self.read_place(p, o["p"], want_int)
 
@@ -268,6 +300,15 @@ class Summary:
         k = rv["k"]
         if k == "use":
             return self.operand(p, rv["op"], self._is_intlike(lhs_ty))
+        if k == "ref":
+            # a reference to a value the abstraction names (the item, a captured value, ..) stands for it;
+            # references to cells are resolved at the dereference through provenance instead
+            v = self.read_place(p, rv["p"])
+            if isinstance(v, tuple) and v and v[0] in ("captured", "item", "error", "stored", "front", "back", "bufcopy",
+                                                       "window", "mapped", "tuple", "opt", "int", "bconst", "bvar", "cmp", "not",
+                                                       "and", "or", "ord"):
+                return v
+            return TOP
         if k == "cast":
             v = self.operand(p, rv["op"], True)
             return v if is_int(v) else TOP
@@ -321,6 +362,8 @@ class Summary:
             v = self.read_place(p, rv["p"])
             if isinstance(v, tuple) and v and v[0] == "opt":
                 return ("disc", v[1])
+            if isinstance(v, tuple) and v and v[0] == "ord":
+                return ("orddisc", v[1], v[2])
             return TOP
         return TOP
 
@@ -352,14 +395,33 @@ class Summary:
                 else:
                     p.cells[g] = TOP
                     p.note.append("untracked store to the counter at line %s" % line)
+            elif kind and kind[0] == "flag":
+                p.cells[g] = v if (len(gs) == 1 and is_bool(v)) else TOP
+            elif kind and kind[0] == "optcell":
+                if len(gs) == 1 and isinstance(v, tuple) and v and v[0] == "opt" and is_bool(v[1]):
+                    p.cells[g] = v[1]
+                    p.trace.append(("remember", self._vkind(v[2])))
+                else:
+                    p.cells[g] = TOP
             elif kind and kind[0] == "cont":
                 p.cells[g] = TOP
                 p.trace.append(("cont_replace", self._sym(g)))
-            elif kind and kind[0] in ("obj", "flag"):
-                p.trace.append(("store", kind[1] if isinstance(kind[1], str) else "flag"))
+            elif kind and kind[0] == "obj":
+                p.trace.append(("store", kind[1] if isinstance(kind[1], str) else "obj"))
 
     def _len(self, p, g):
         return p.cells.get(g, INT("len:" + self._sym(g)))
+
+    @staticmethod
+    def _vkind(v):
+        if isinstance(v, tuple) and v:
+            if v[0] in ("item", "front", "back", "bufcopy", "window", "captured", "stored", "mapped", "error"):
+                return v[0]
+            if v[0] == "int":
+                return "int"
+            if v[0] == "bconst":
+                return "const:%s" % str(v[1]).lower()
+        return "other"
 
     def _payload_kind(self, p, c, idx):
         """what a sink_next / Subject::next hands on"""
@@ -368,12 +430,17 @@ class Summary:
             return "?"
         a = c.args[idx]
         v = self.operand(p, a)
-        if isinstance(v, tuple) and v and v[0] in ("item", "front", "back", "bufcopy", "window"):
+        if isinstance(v, tuple) and v and v[0] in ("item", "front", "back", "bufcopy", "window", "captured", "stored", "mapped", "error"):
             return v[0]
+        if isinstance(v, tuple) and v and v[0] == "bconst":
+            return "const:%s" % str(v[1]).lower()
+        if is_int(v):
+            p.note.append(("intpayload", v))
+            return "int"
         kinds = set()
         for t in b.operand_prov(a):
             if t[0] == "param" and t[1] == self.item_param:
-                kinds.add("item")
+                kinds.add(self.item_kind)
             elif t[0] == "ret":
                 cc = b.call_at(t[1])
                 if cc is not None and (cc.path in POP_FRONT or cc.path == "std::vec::Vec::remove"):
@@ -469,6 +536,19 @@ class Summary:
                     p.trace.append(("take_all",))
                     p.cells[g] = INT(None, 0)
                     return done(p, ("bufcopy",))
+                if kind and kind[0] == "optcell":
+                    old = p.cells.get(g, ("bvar", "o:" + self._sym(g)))
+                    if path.endswith("take"):
+                        p.cells[g] = FALSE
+                    else:
+                        nv = self.operand(p, c.args[1]) if len(c.args) > 1 else TOP
+                        p.cells[g] = nv[1] if (isinstance(nv, tuple) and nv and nv[0] == "opt" and is_bool(nv[1])) else TOP
+                    return done(p, ("opt", old, ("stored",)))
+                if kind and kind[0] == "flag":
+                    old = p.cells.get(g, ("bvar", "f:" + self._sym(g)))
+                    nv = FALSE if path.endswith("take") else (self.operand(p, c.args[1]) if len(c.args) > 1 else TOP)
+                    p.cells[g] = nv if is_bool(nv) else TOP
+                    return done(p, old)
                 if kind and kind[0] == "int":
                     old = p.cells.get(g, INT(self._sym(g)))
                     nv = INT(None, 0) if path.endswith("take") else (self.operand(p, c.args[1], True) if len(c.args) > 1 else TOP)
@@ -479,6 +559,23 @@ class Summary:
         if aop and c.args:
             gs = self._gcells(b.operand_prov(c.args[0]))
             g = next(iter(gs)) if gs and len(gs) == 1 else None
+            if g is not None and (self._alloc_kind(g) or ("?",))[0] == "flag":
+                old = p.cells.get(g, ("bvar", "f:" + self._sym(g)))
+                name = path.split("::")[-1]
+                if aop == "LOAD":
+                    return done(p, old)
+                arg = self.operand(p, c.args[1]) if len(c.args) > 1 else TOP
+                if name in ("store", "swap") and is_bool(arg):
+                    p.cells[g] = arg
+                    return done(p, old)
+                if name == "fetch_or" and is_bool(arg):
+                    p.cells[g] = ("or", old, arg)
+                    return done(p, old)
+                if name == "fetch_and" and is_bool(arg):
+                    p.cells[g] = ("and", old, arg)
+                    return done(p, old)
+                p.cells[g] = TOP
+                return done(p)
             if g is not None and (self._alloc_kind(g) or ("?",))[0] == "int":
                 old = p.cells.get(g, INT(self._sym(g)))
                 name = path.split("::")[-1]
@@ -493,6 +590,87 @@ class Summary:
                     return done(p, old)
                 p.cells[g] = TOP
                 return done(p)
+        last = path.split("::")[-1]
+        if path in ("std::cmp::Ord::cmp", "std::cmp::PartialOrd::partial_cmp") and len(c.args) == 2:
+            x_, y_ = self.operand(p, c.args[0], True), self.operand(p, c.args[1], True)
+            if is_int(x_) and is_int(y_):
+                o_ = ("ord", x_, y_)
+                return done(p, o_ if path.endswith("::cmp") else ("opt", TRUE, o_))
+            return done(p)
+        if path.startswith("std::cmp::Ordering::") and last in ("is_lt", "is_le", "is_gt", "is_ge", "is_eq", "is_ne") and c.args:
+            o_ = self.operand(p, c.args[0])
+            if isinstance(o_, tuple) and o_ and o_[0] == "ord":
+                return done(p, ("cmp", {"is_lt": "Lt", "is_le": "Le", "is_gt": "Gt", "is_ge": "Ge", "is_eq": "Eq", "is_ne": "Ne"}[last], o_[1], o_[2]))
+            return done(p)
+        if path in ("std::cmp::PartialOrd::lt", "std::cmp::PartialOrd::le", "std::cmp::PartialOrd::gt", "std::cmp::PartialOrd::ge") and len(c.args) == 2:
+            x_, y_ = self.operand(p, c.args[0], True), self.operand(p, c.args[1], True)
+            if is_int(x_) and is_int(y_):
+                return done(p, ("cmp", {"lt": "Lt", "le": "Le", "gt": "Gt", "ge": "Ge"}[last], x_, y_))
+            return done(p)
+        if (path.startswith("core::num::") or path.startswith("std::num::")) and len(c.args) == 2 and last in (
+                "checked_sub", "checked_add", "saturating_sub", "saturating_add", "wrapping_add", "wrapping_sub"):
+            x_, y_ = self.operand(p, c.args[0], True), self.operand(p, c.args[1], True)
+            if is_int(x_) and is_int(y_) and y_[1] is None:
+                if last in ("checked_add", "saturating_add", "wrapping_add"):
+                    r_ = INT(x_[1], x_[2] + y_[2])
+                    return done(p, ("opt", TRUE, r_) if last == "checked_add" else r_)
+                fits = ("cmp", "Ge", x_, y_)
+                r_ = INT(x_[1], x_[2] - y_[2])
+                if last == "checked_sub":
+                    return done(p, ("opt", fits, r_))
+                if last == "saturating_sub":
+                    q = p.fork()
+                    p.pc.append(fits)
+                    done(p, r_)
+                    q.pc.append(b_not(fits))
+                    done(q, INT(None, 0))
+                    return
+            return done(p)
+        if path in ("std::cmp::Ord::min", "std::cmp::Ord::max", "std::cmp::min", "std::cmp::max") and len(c.args) == 2:
+            x_, y_ = self.operand(p, c.args[0], True), self.operand(p, c.args[1], True)
+            if is_int(x_) and is_int(y_):
+                le = ("cmp", "Le", x_, y_)
+                q = p.fork()
+                p.pc.append(le)
+                done(p, x_ if last == "min" else y_)
+                q.pc.append(b_not(le))
+                done(q, y_ if last == "min" else x_)
+                return
+            return done(p)
+        if a == "fw_call":
+            dty = b.locals[dl]["ty"] if dl is not None else None
+            argk = self._payload_kind(p, c, 1) if len(c.args) > 1 else "?"
+            p.trace.append(("user_fn", argk))
+            if dty is not None and dty.get("s") == "bool":
+                return done(p, ("bvar", "in:pred"))
+            return done(p, ("mapped",))
+        if path in ("std::cmp::PartialEq::eq", "std::cmp::PartialEq::ne") and len(c.args) == 2 and \
+                is_int(self.operand(p, c.args[0], True)) and is_int(self.operand(p, c.args[1], True)):
+            return done(p, ("cmp", "Eq" if path.endswith("::eq") else "Ne", self.operand(p, c.args[0], True), self.operand(p, c.args[1], True)))
+        if path in ("std::cmp::PartialEq::eq", "std::cmp::PartialEq::ne") and len(c.args) == 2:
+            ks = sorted(self._payload_kind(p, c, i) for i in (0, 1))
+            e = ("bvar", "in:eq:" + "=".join(ks))
+            return done(p, e if path.endswith("::eq") else b_not(e))
+        if path in ("std::option::Option::take", "std::option::Option::replace", "std::option::Option::insert",
+                    "std::option::Option::get_or_insert") and c.args:
+            gs = self._gcells(b.operand_prov(c.args[0]))
+            g = next(iter(gs)) if gs and len(gs) == 1 else None
+            if g is not None and (self._alloc_kind(g) or ("?",))[0] == "optcell":
+                old = p.cells.get(g, ("bvar", "o:" + self._sym(g)))
+                name = path.split("::")[-1]
+                if name == "take":
+                    p.cells[g] = FALSE
+                    return done(p, ("opt", old, ("stored",)))
+                if name == "get_or_insert":
+                    p.cells[g] = TRUE
+                    return done(p, ("stored",))
+                p.cells[g] = TRUE
+                p.trace.append(("remember", self._payload_kind(p, c, 1)))
+                return done(p, ("opt", old, ("stored",)) if name == "replace" else ("stored",))
+        if a in ("obs_next", "obs_error", "obs_complete"):
+            # a side observer built from the user's callbacks (tap)
+            p.trace.append(("user_fn", self._payload_kind(p, c, 1) if a != "obs_complete" else "?"))
+            return done(p)
         if a in ("sink_next",):
             p.trace.append(("sink_next", self._payload_kind(p, c, 1)))
             return done(p)
@@ -522,7 +700,8 @@ class Summary:
                     ty = b.locals[dl]["ty"]
                     if norm(ty_adt(ty) or "") in ("std::vec::Vec", "std::collections::VecDeque"):
                         return done(p, ("bufcopy",))
-            if isinstance(v, tuple) and v and v[0] in ("opt", "item", "front", "back", "bufcopy", "window", "int", "tuple"):
+            if isinstance(v, tuple) and v and v[0] in ("opt", "item", "front", "back", "bufcopy", "window", "int", "tuple", "captured",
+                                                       "stored", "mapped", "error", "bvar", "bconst"):
                 if v[0] == "opt" and path.endswith("unwrap"):
                     return done(p, v[2])
                 return done(p, v)
@@ -544,7 +723,7 @@ class Summary:
         b = self.b
         start = Path()
         if b.argc >= self.item_param:
-            start.env[self.item_param] = ("item",)
+            start.env[self.item_param] = (self.item_kind,)
         work = [(start, 0)]
         steps = 0
         while work:
@@ -596,6 +775,16 @@ class Summary:
                 d = self.operand(p, t["discr"])
                 targets = t["targets"]
                 other = t["otherwise"]
+                if isinstance(d, tuple) and d and d[0] == "orddisc":
+                    a_, c_ = d[1], d[2]
+                    arms = {}
+                    for v_, bbx in targets:
+                        arms["Eq" if v_ == 0 else ("Gt" if v_ == 1 else "Lt")] = bbx
+                    for opn in ("Lt", "Eq", "Gt"):
+                        q = p.fork()
+                        q.pc.append(("cmp", opn, a_, c_))
+                        work.append((q, arms.get(opn, other)))
+                    continue
                 if isinstance(d, tuple) and d and d[0] == "disc":
                     d = d[1]
                     if d == TOP:
@@ -652,7 +841,9 @@ class Summary:
                 syms.add(v[1])
 
         def walk_b(e):
-            if e[0] == "cmp":
+            if e[0] == "bvar":
+                syms.add(e[1])
+            elif e[0] == "cmp":
                 walk_i(e[2]), walk_i(e[3])
             elif e[0] == "not":
                 walk_b(e[1])
@@ -662,7 +853,10 @@ class Summary:
             for e in p.pc:
                 walk_b(e)
             for v in p.cells.values():
-                walk_i(v)
+                if is_bool(v):
+                    walk_b(v)
+                else:
+                    walk_i(v)
         return syms
 
     def max_const(self):
@@ -684,15 +878,18 @@ class Summary:
             tr = tuple(x for x in p.trace if x[0] in proj)
             nxt = {}
             for g, v in p.cells.items():
-                if not is_int(v):
-                    raise Undecided("state update not affine (%s)" % "; ".join(p.note or ["?"]))
-                nxt[g] = ev_int(v, sigma)
+                if is_bool(v):
+                    nxt[g] = ev_bool(v, sigma)
+                elif is_int(v):
+                    nxt[g] = ev_int(v, sigma)
+                else:
+                    raise Undecided("state update not representable (%s)" % "; ".join(str(x) for x in p.note or ["?"]))
             res[(tr, tuple(sorted((self._sym(g), v) for g, v in nxt.items())))] = (p, nxt)
         return res
 
 
 # ---- operator tables ------------------------------------------------------------------------
-ALPHABET = {"sink_next", "sink_complete", "sink_complete_force", "sink_error", "abort", "finalize", "push_back", "push_front",
+ALPHABET = {"user_fn", "remember", "sink_next", "sink_complete", "sink_complete_force", "sink_error", "abort", "finalize", "push_back", "push_front",
             "pop_front", "pop_back", "clear", "take_all", "window_next", "window_complete", "window_error", "store",
             "panic", "loop", "opaque", "cont_replace", "cont_truncate", "cont_drain", "cont_retain", "cont_remove",
             "cont_insert", "cont_append", "cont_extend", "cont_split_off", "cont_resize", "cont_swap_remove"}
@@ -921,6 +1118,8 @@ def _show_i(v):
 
 
 def _show_b(e):
+    if e[0] == "bvar":
+        return e[1].split("|")[0].replace("in:", "").split(":")[0] if e[1].startswith("in:") else ("flag" if e[1].startswith("f:") else "has_value")
     if e[0] == "bconst":
         return str(e[1]).lower()
     if e[0] == "not":
